@@ -278,6 +278,11 @@ def run_fake(variant: str, cfg: dict, query, opname, variables, frames) -> dict:
         args, kwargs = fc.calls[0]
         kwargs = dict(kwargs)
         sub = kwargs.pop("subprotocols", None)
+        # the keyword under which websockets.connect takes handshake headers is a fact about the
+        # installed library (extra_headers before 14, additional_headers since): the real-server
+        # run decides whether the name works; K1 compares the headers under the model's key
+        if "additional_headers" in kwargs and "extra_headers" not in kwargs:
+            kwargs["extra_headers"] = kwargs.pop("additional_headers")
         connect = [list(args), [str(s) for s in (sub or [])],
                    {k: (str(v) if k == "origin" and v is not None else v) for k, v in kwargs.items()}]
     return {"connect": connect, "events": events, "fin": fin,
@@ -321,7 +326,10 @@ def strict(v) -> str:
 def project(tr: dict) -> dict:
     """the observables the property text speaks about"""
     fin = tr["fin"]
-    return {"sent": [x[1] for x in tr["events"] if isinstance(x, list) and x[0] == "s"],
+    conn = tr.get("connect")
+    if conn:   # origin=None and no origin keyword mean the same handshake
+        conn = [conn[0], conn[1], {k: v for k, v in conn[2].items() if not (k == "origin" and v is None)}]
+    return {"connect": conn, "sent": [x[1] for x in tr["events"] if isinstance(x, list) and x[0] == "s"],
             "yielded": [x[1] for x in tr["events"] if isinstance(x, list) and x[0] == "y"],
             "closes": sum(1 for x in tr["events"] if x == "c"),
             "fin": fin if isinstance(fin, str) else ([fin[0]] + (fin[1:] if fin[0] == "multi" else []))}
